@@ -1,4 +1,5 @@
 import Driver.Codec
+import NirVerif.Model.Graph
 /-
   Line-protocol driver: one JSON request per line on stdin, one JSON reply per line on
   stdout.  Imports Model / Spec / Generated only (no Mathlib), so it builds as a native exe.
@@ -7,6 +8,49 @@ namespace NirVerif.Driver
 open Lean NirVerif NirVerif.Py NirVerif.Model
 
 def intsJson (xs : List Int) : Json := .arr (xs.map fun i => Json.num (JsonNumber.fromInt i)).toArray
+
+/-- build a node (leaf or nested graph) from a recipe -/
+partial def buildRecipe (j : Json) : Except String (Except PyErr Node) := do
+  let kind ← (← j.getObjVal? "type").getStr?
+  if kind == "NIRGraph" then
+    let nodesJ ← (← j.getObjVal? "nodes").getArr?
+    let mut children : Nodes := []
+    for nj in nodesJ.toList do
+      let a ← nj.getArr?
+      if a.size != 2 then throw "bad node entry"
+      let name ← a[0]!.getStr?
+      match ← buildRecipe a[1]! with
+      | .error e => return .error e
+      | .ok c => children := Py.insert name c children
+    let edges ← (← (← j.getObjVal? "edges").getArr?).toList.mapM fun e => do
+      let a ← e.getArr?
+      if a.size != 2 then throw "bad edge"
+      pure ((← a[0]!.getStr?), (← a[1]!.getStr?))
+    let md ← match j.getObjVal? "meta" with
+      | .ok .null => pure (Val.dict [])
+      | .ok m => valOfJson m
+      | .error _ => pure (Val.dict [])
+    pure (.ok (mkGraph children edges md))
+  else
+    let kwargs ← kvsOfJson (← j.getObjVal? "kwargs")
+    pure (construct kind kwargs)
+
+def errOpt : Option PyErr → Json
+  | none => .null
+  | some e => .str e.name
+
+def runOps (g : Node) : List String → List Json → Except String (List Json)
+  | [], acc => pure acc.reverse
+  | op :: rest, acc =>
+    match op with
+    | "infer" =>
+      let (g', err) := inferTypes g
+      runOps g' rest (Json.mkObj [("err", errOpt err), ("g", nodeToJson g')] :: acc)
+    | "check" =>
+      match checkTypes g with
+      | .ok b => runOps g rest (Json.mkObj [("r", .bool b)] :: acc)
+      | .error e => runOps g rest (errJson e :: acc)
+    | _ => throw s!"unknown graph op {op}"
 
 def handle (j : Json) : Except String Json := do
   let op ← (← j.getObjVal? "op").getStr?
@@ -34,6 +78,23 @@ def handle (j : Json) : Except String Json := do
     let kwargs ← kvsOfJson (← j.getObjVal? "kwargs")
     match construct kind kwargs with
     | .ok n => pure (nodeToJson n)
+    | .error e => pure (errJson e)
+  | "graph" =>
+    let ops ← (← (← j.getObjVal? "ops").getArr?).toList.mapM (·.getStr?)
+    match ← buildRecipe (← j.getObjVal? "graph") with
+    | .error e => pure (Json.mkObj [("steps", .arr #[errJson e])])
+    | .ok g =>
+      let steps ← runOps g ops [nodeToJson g]
+      pure (Json.mkObj [("steps", .arr steps.toArray)])
+  | "from_list" =>
+    let recs ← (← j.getObjVal? "nodes").getArr?
+    let mut nodes : List Node := []
+    for r in recs.toList do
+      match ← buildRecipe r with
+      | .error e => return errJson e
+      | .ok n => nodes := nodes ++ [n]
+    match fromList nodes with
+    | .ok g => pure (nodeToJson g)
     | .error e => pure (errJson e)
   | _ => throw s!"unknown op {op}"
 
